@@ -150,7 +150,8 @@ func main() {
 		name := fmt.Sprintf("c_%d", cur.f.N)
 		cur.f.Add(coqCase(name, c, obs))
 		cur.names = append(cur.names, name)
-		res.Cases = append(res.Cases, hx.Case{File: cur.f.Name, Index: cur.f.N, Input: c, Impl: obs.summary()})
+		// the case is regenerable from its label (see regen): the result file stays small in the large tiers
+		res.Cases = append(res.Cases, hx.Case{File: cur.f.Name, Index: cur.f.N, Input: map[string]any{"label": c.Label}, Impl: obs.summary()})
 		cur.f.N++
 		if cur.f.N >= shard {
 			flush()
@@ -233,7 +234,31 @@ func readReplay(path string) (*Case, error) {
 		return nil, err
 	}
 	if len(c.Flows) == 0 {
-		return nil, fmt.Errorf("%s: case without flows", path)
+		// only the label was stored: build the case again
+		label := c.Label
+		if c = regen(label); c == nil {
+			return nil, fmt.Errorf("%s: case %q cannot be regenerated", path, label)
+		}
 	}
 	return c, nil
+}
+
+// regen rebuilds a case from its label: a corpus case by name, a generated one ("gen-<seed>-<index>") by replaying
+// the generator's stream up to that index
+func regen(label string) *Case {
+	for _, c := range corpus() {
+		if c.Label == label {
+			return c
+		}
+	}
+	var seed uint64
+	var idx int
+	if n, _ := fmt.Sscanf(label, "gen-%d-%d", &seed, &idx); n != 2 {
+		return nil
+	}
+	r := hx.NewRand(seed)
+	for i := 0; i < idx; i++ {
+		r.U64() // what the Fork of every earlier case consumed
+	}
+	return genCase(r.Fork(label), label, idx%3 == 2)
 }
